@@ -1647,6 +1647,9 @@ def render(e, transparent=True, depth=0):
     if k == 'var':
         return '$' + str(e[2])
     if k == 'field':
+        b0 = strip(e[1], transparent)
+        if b0[0] == 'aggr' and len(b0) > 3 and b0[3] and len(b0[3]) == len(b0[2]) and e[2] in b0[3]:
+            return r(b0[2][list(b0[3]).index(e[2])])          # a component of a struct literal built earlier: the component itself
         return '%s.%s' % (r(e[1]), e[2])
     if k == 'downcast':
         return '%s as %s' % (r(e[1]), e[2])
